@@ -42,6 +42,10 @@ func runC05(p *Prog, r *Report) {
 	r.Rule("D5-same-layers", "ScanContainer scans the last chain layer and traces with the same list")
 	r.Rule("D6-presence", "a package counts as present in an older view exactly when some entry there has the same package URL and locations")
 	defer c05Presence(p, r)
+	r.Rule("D7-view-omissions", "the views the tracer compares drop tar entries only for the sanctioned reasons (shared with C04)")
+	c04OmissionsAs(p, r, "D7-view-omissions")
+	r.Rule("D8-diffid-cutset", "the diff ID is cut at the algorithm prefix, not trimmed by a character set")
+	cutsetDiscipline(p, r, "D8-diffid-cutset", tracePkg)
 	fn := p.Func(tracePkg, "PopulateLayerDetails")
 	if fn == nil {
 		r.Undecided("D1-triple", "anchor:PopulateLayerDetails", "-", "not found")
